@@ -21,7 +21,7 @@ def parser_unit():
     return {
         'name': 'parser',
         'mods': [root],
-        'features': ['pattern', 'allocator_api'],
+        'features': ['pattern', 'allocator_api', 'print_internals', 'panic_internals'],
         'prelude': [os.path.join(CONTRACTS, 'prelude_std.vrs'), os.path.join(CONTRACTS, 'prelude_arraydeque.vrs'),
                     os.path.join(CONTRACTS, 'spec_chars.vrs')],
         'sidecar': [os.path.join(CONTRACTS, x) for x in
